@@ -184,6 +184,23 @@ func (r *run) Do(op string) string {
 		}
 
 		return classify(r.m.AssignAddress(ctx, id, "p", "")) + " " + r.snapshot()
+	case "touch": // touch s1 activate|wall|unwall : the API calls that write session.State
+		id, ok := r.names[f[1]]
+		if !ok {
+			return "nosuch"
+		}
+		var err error
+		switch f[2] {
+		case "activate":
+			err = r.m.ActivateSession(id)
+		case "wall":
+			err = r.m.SetWalledGarden(id, "verif")
+		case "unwall":
+			err = r.m.ClearWalledGarden(id)
+		default:
+			return "badop"
+		}
+		return classify(err) + " " + r.snapshot()
 	case "term":
 		id, ok := r.names[f[1]]
 		if !ok {
@@ -255,6 +272,9 @@ func (comp) Gen(rg *rand.Rand, tier string, emit func([]string)) {
 					continue // an assignment racing a termination in progress is kept rare (recorded finding)
 				}
 				seq = append(seq, fmt.Sprintf("assign s%d", 1+rg.Intn(made)))
+			case x < 52:
+				// the calls that write Session.State: also while a termination is parked
+				seq = append(seq, fmt.Sprintf("touch s%d %s", 1+rg.Intn(made), hx.Pick(rg, []string{"activate", "wall", "unwall"})))
 			case x < 60:
 				if len(parked) > 0 {
 					continue // a synchronous terminate would park too
